@@ -1,5 +1,6 @@
 import DswModel.Tie.PyLemmas
 import DswModel.Tie.SpiderwebDefs
+import DswModel.Lemmas.Digit
 /-!
 # DswModel.Tie.NpLemmas — lemmas about the NumPy part of the Python fragment
 (arrays, `npWhere`, `npArgsort`, `npSum`, `npArray`, `npZeros`, `npIndex2`, broadcasting, and the
@@ -13,6 +14,9 @@ embeddings `accPV`, `tblPV`, `bitsPV` of `SpiderwebDefs`), shared by the ties of
   `Tbl.keys`, the idiom `where(accessor[v] >= 0)[0]`;
 * §6 `None` tests, nucleotide columns (`pyIn`/`pyIndexOf` on lists of one-letter strings, `livePos`),
   `pyPow`.
+
+Imports `Lemmas/Digit` (core Lean only) for the facts about `Acc.live`, `argsort`, `Tbl.keys`
+(`mem_live_iff`, `live_lt_four`, `argsort_length`, `mem_argsort`, `keys_length`, …).
 
 Conventions as in `PyLemmas`: `@[simp]` lemmas compute on constructor-headed arguments; lemmas with
 side conditions are for `rw` / `simp only [lemma h]`.  A list of integers is embedded as
@@ -139,5 +143,791 @@ theorem pySetItem_arr_int {l : List PV} {i : Int} (h0 : 0 ≤ i) (h : i < l.leng
 theorem pySetItem_arr_of_ge {l : List PV} {i : Int} (h : (l.length : Int) ≤ i) (x : PV) :
     pySetItem (.arr l) (.int i) x = .error .indexError := by
   simp only [pySetItem, asInt?_int, normIndex_of_ge h]
+
+/-! ## §2 integer arrays -/
+
+/-- the two spellings of an embedded list of naturals. -/
+theorem map_natCast_int (l : List Nat) :
+    (l.map fun (n : Nat) => (n : Int)).map PV.int = l.map fun (n : Nat) => PV.int (n : Int) := by
+  simp
+
+theorem getD_map_int (l : List Int) (i : Nat) (d : Int) : (l.map PV.int).getD i .none =
+    if i < l.length then .int (l.getD i d) else .none := by
+  by_cases h : i < l.length
+  · simp [h, List.getD_eq_getElem?_getD]
+  · simp [h, List.getD_eq_getElem?_getD]
+theorem getD_map_nat (l : List Nat) (i : Nat) (d : Nat) :
+    (l.map fun (n : Nat) => PV.int (n : Int)).getD i .none =
+      if i < l.length then .int ((l.getD i d : Nat) : Int) else .none := by
+  by_cases h : i < l.length
+  · simp [h, List.getD_eq_getElem?_getD]
+  · simp [h, List.getD_eq_getElem?_getD]
+
+theorem pyIndex_ints_nat {l : List Int} {i : Nat} (h : i < l.length) :
+    pyIndex (.arr (l.map .int)) (.int i) = .ok (.int (l.getD i 0)) := by
+  rw [pyIndex_arr_getD (by simpa using h), getD_map_int l i 0, if_pos h]
+theorem pyIndex_ints_int {l : List Int} {i : Int} (h0 : 0 ≤ i) (h : i < l.length) :
+    pyIndex (.arr (l.map .int)) (.int i) = .ok (.int (l.getD i.toNat 0)) := by
+  rw [pyIndex_arr_int h0 (by simpa using h), getD_map_int l _ 0, if_pos (by omega)]
+theorem pyIndex_nats_nat {l : List Nat} {i : Nat} (h : i < l.length) :
+    pyIndex (.arr (l.map fun (n : Nat) => .int (n : Int))) (.int i) = .ok (.int ((l.getD i 0 : Nat) : Int)) := by
+  rw [pyIndex_arr_getD (by simpa using h), getD_map_nat l i 0, if_pos h]
+theorem pyIndex_nats_int {l : List Nat} {i : Int} (h0 : 0 ≤ i) (h : i < l.length) :
+    pyIndex (.arr (l.map fun (n : Nat) => .int (n : Int))) (.int i) =
+      .ok (.int ((l.getD i.toNat 0 : Nat) : Int)) := by
+  rw [pyIndex_arr_int h0 (by simpa using h), getD_map_nat l _ 0, if_pos (by omega)]
+
+/-- `used_indices[0]` with the literal `0`. -/
+theorem pyIndex_nats_zero {l : List Nat} (h : 0 < l.length) :
+    pyIndex (.arr (l.map fun (n : Nat) => .int (n : Int))) (.int 0) = .ok (.int ((l.getD 0 0 : Nat) : Int)) :=
+  pyIndex_nats_nat (i := 0) h
+theorem pyIndex_nats_of_ge {l : List Nat} {i : Int} (h : (l.length : Int) ≤ i) :
+    pyIndex (.arr (l.map fun (n : Nat) => .int (n : Int))) (.int i) = .error .indexError :=
+  pyIndex_arr_of_ge (by simpa using h)
+
+/-! ### `mapM asInt?` (the guard of `npSum` / `npArgsort`) -/
+
+theorem mapM_asInt?_cons (x : PV) (xs : List PV) :
+    (x :: xs).mapM PV.asInt? = (x.asInt?).bind fun k => (xs.mapM PV.asInt?).bind fun ks => some (k :: ks) := by
+  simp [List.mapM_cons]
+theorem mapM_asInt?_ints (l : List Int) : (l.map PV.int).mapM PV.asInt? = some l := by
+  induction l with
+  | nil => rfl
+  | cons x xs ih => simp [List.mapM_cons, ih]
+theorem mapM_asInt?_nats (l : List Nat) :
+    (l.map fun (n : Nat) => PV.int (n : Int)).mapM PV.asInt? = some (l.map fun (n : Nat) => (n : Int)) := by
+  rw [← map_natCast_int, mapM_asInt?_ints]
+theorem mapM_asInt?_bools (l : List Bool) :
+    (l.map PV.bool).mapM PV.asInt? = some (l.map fun b => if b then 1 else 0) := by
+  induction l with
+  | nil => rfl
+  | cons x xs ih => simp [List.mapM_cons, ih]
+
+/-! ### `npSum` -/
+
+theorem foldl_add_shift (l : List Int) (a : Int) : l.foldl (· + ·) a = a + l.foldl (· + ·) 0 := by
+  induction l generalizing a with
+  | nil => simp
+  | cons x xs ih => rw [List.foldl_cons, List.foldl_cons, ih (a + x), ih (0 + x)]; omega
+theorem foldl_add_shift_nat (l : List Nat) (a : Nat) : l.foldl (· + ·) a = a + l.foldl (· + ·) 0 := by
+  induction l generalizing a with
+  | nil => simp
+  | cons x xs ih => rw [List.foldl_cons, List.foldl_cons, ih (a + x), ih (0 + x)]; omega
+theorem foldl_add_natCast (l : List Nat) (a : Nat) :
+    (l.map fun (n : Nat) => (n : Int)).foldl (· + ·) (a : Int) = ((l.foldl (· + ·) a : Nat) : Int) := by
+  induction l generalizing a with
+  | nil => rfl
+  | cons x xs ih =>
+    rw [List.map_cons, List.foldl_cons, List.foldl_cons, ← ih (a + x)]; push_cast; rfl
+
+theorem npSum_ints (l : List Int) : npSum (.arr (l.map .int)) = .ok (.int (l.foldl (· + ·) 0)) := by
+  simp only [npSum, mapM_asInt?_ints]
+theorem npSum_nats (l : List Nat) :
+    npSum (.arr (l.map fun (n : Nat) => .int (n : Int))) = .ok (.int ((l.foldl (· + ·) 0 : Nat) : Int)) := by
+  simp only [npSum, mapM_asInt?_nats]
+  exact congrArg (fun z => Except.ok (PV.int z)) (foldl_add_natCast l 0)
+theorem npSum_list_nats (l : List Nat) : npSum (natsPV l) = .ok (.int ((l.foldl (· + ·) 0 : Nat) : Int)) := by
+  simp only [npSum, natsPV, mapM_asInt?_nats]
+  exact congrArg (fun z => Except.ok (PV.int z)) (foldl_add_natCast l 0)
+@[simp] theorem npSum_arr_nil : npSum (.arr []) = .ok (.int 0) := rfl
+/-- one more integer in front (for inductions over an array built item by item, e.g. `trueIdx`). -/
+theorem npSum_arr_cons_int {l : List PV} {s : Int} (i : Int) (h : npSum (.arr l) = .ok (.int s)) :
+    npSum (.arr (.int i :: l)) = .ok (.int (i + s)) := by
+  simp only [npSum] at h ⊢
+  cases hl : l.mapM PV.asInt? with
+  | none => rw [hl] at h; cases h
+  | some ks =>
+    rw [hl] at h
+    injection h with h; injection h with h
+    simp only [List.mapM_cons, asInt?_int, hl]
+    show Except.ok (PV.int ((i :: ks).foldl (· + ·) 0)) = _
+    rw [List.foldl_cons, foldl_add_shift, h]; simp
+
+/-! ### `npArgsort` -/
+
+theorem npArgsort_ints (ks : List Int) :
+    npArgsort (.arr (ks.map .int)) = .ok (.arr ((Dsw.argsort ks).map fun (i : Nat) => .int (i : Int))) := by
+  simp only [npArgsort, mapM_asInt?_ints]
+
+/-! ### `npArray`, `npZeros` -/
+
+theorem mapM'_npArrayItem_ints (l : List Int) : mapM' npArrayItem (l.map .int) = .ok (l.map .int) :=
+  (mapM'_map (emb := PV.int) (g := PV.int) (fun _ _ => rfl))
+/-- `numpy.array([ints])`. -/
+theorem npArray_list_ints (l : List Int) : npArray (.list (l.map .int)) = .ok (.arr (l.map .int)) := by
+  simp only [npArray, mapM'_npArrayItem_ints, R_map_ok]
+theorem npArray_list_nats (l : List Nat) :
+    npArray (.list (l.map fun (n : Nat) => .int (n : Int))) = .ok (.arr (l.map fun (n : Nat) => .int (n : Int))) := by
+  rw [← map_natCast_int, npArray_list_ints]
+/-- `numpy.array(bits)` for a Python list of bits. -/
+theorem npArray_natsPV (l : List Nat) : npArray (natsPV l) = .ok (bitsPV l) := npArray_list_nats l
+@[simp] theorem npArray_arr (l : List PV) : npArray (.arr l) = .ok (.arr l) := rfl
+/-- `numpy.array([[ints], …])`. -/
+theorem npArray_list_lists (ls : List (List Int)) :
+    npArray (.list (ls.map fun l => .list (l.map .int))) = .ok (.arr (ls.map fun l => .arr (l.map .int))) := by
+  simp only [npArray]
+  rw [mapM'_map (f := npArrayItem) (emb := fun (l : List Int) => PV.list (l.map .int))
+    (g := fun (l : List Int) => PV.arr (l.map .int)) (fun _ _ => rfl)]; rfl
+
+theorem npZeros_tup_nat (n : Nat) :
+    npZeros (.tup [.int (n : Int)]) = .ok (.arr (List.replicate n (.int 0))) := by
+  have : ¬ ((n : Int) < 0) := by omega
+  simp [npZeros, this]
+theorem npZeros_nat (n : Nat) : npZeros (.int (n : Int)) = .ok (.arr (List.replicate n (.int 0))) := by
+  have : ¬ ((n : Int) < 0) := by omega
+  simp [npZeros, this]
+/-- `numpy.zeros(shape=(L,), dtype=int)` as a bit array. -/
+theorem npZeros_bitsPV (n : Nat) : npZeros (.tup [.int (n : Int)]) = .ok (bitsPV (List.replicate n 0)) := by
+  rw [npZeros_tup_nat]; simp [bitsPV]
+
+/-! ### `bitsPV` -/
+
+theorem bitsPV_def (bits : List Nat) : bitsPV bits = .arr (bits.map fun (b : Nat) => .int (b : Int)) := rfl
+@[simp] theorem pyLen_bitsPV (bits : List Nat) : pyLen (bitsPV bits) = .ok (.int bits.length) := by
+  simp [bitsPV]
+@[simp] theorem pyIter_bitsPV (bits : List Nat) :
+    pyIter (bitsPV bits) = .ok (bits.map fun (b : Nat) => .int (b : Int)) := rfl
+theorem pyIndex_bitsPV {bits : List Nat} {i : Nat} (h : i < bits.length) :
+    pyIndex (bitsPV bits) (.int i) = .ok (.int ((bits.getD i 0 : Nat) : Int)) := pyIndex_nats_nat h
+theorem pyIndex_bitsPV_int {bits : List Nat} {i : Int} (h0 : 0 ≤ i) (h : i < bits.length) :
+    pyIndex (bitsPV bits) (.int i) = .ok (.int ((bits.getD i.toNat 0 : Nat) : Int)) := pyIndex_nats_int h0 h
+theorem pyIndex_bitsPV_of_ge {bits : List Nat} {i : Int} (h : (bits.length : Int) ≤ i) :
+    pyIndex (bitsPV bits) (.int i) = .error .indexError := pyIndex_arr_of_ge (by simpa using h)
+theorem pySetItem_bitsPV {bits : List Nat} {i : Nat} (h : i < bits.length) (b : Nat) :
+    pySetItem (bitsPV bits) (.int i) (.int b) = .ok (bitsPV (bits.set i b)) := by
+  rw [bitsPV, pySetItem_arr_nat (by simpa using h)]; simp [bitsPV]
+theorem pySetItem_bitsPV_int {bits : List Nat} {i : Int} (h0 : 0 ≤ i) (h : i < bits.length) (b : Nat) :
+    pySetItem (bitsPV bits) (.int i) (.int b) = .ok (bitsPV (bits.set i.toNat b)) := by
+  rw [bitsPV, pySetItem_arr_int h0 (by simpa using h)]; simp [bitsPV]
+theorem pySetItem_bitsPV_of_ge {bits : List Nat} {i : Int} (h : (bits.length : Int) ≤ i) (x : PV) :
+    pySetItem (bitsPV bits) (.int i) x = .error .indexError := pySetItem_arr_of_ge (by simpa using h) x
+
+/-! ## §3 broadcasting: `arrZip`, `npSub` / `npAdd` / `npMul`, `npCmp` -/
+
+@[simp] theorem arrZip_nil (f : PV → PV → RV) : arrZip f [] [] = .ok [] := rfl
+theorem arrZip_cons (f : PV → PV → RV) (x y : PV) (xs ys : List PV) :
+    arrZip f (x :: xs) (y :: ys) = bnd (f x y) fun z => bnd (arrZip f xs ys) fun zs => .ok (z :: zs) := by
+  simp only [arrZip, bnd]
+  cases f x y with
+  | error e => rfl
+  | ok z => cases arrZip f xs ys <;> rfl
+@[simp] theorem arrZip_nil_cons (f : PV → PV → RV) (y : PV) (ys : List PV) :
+    arrZip f [] (y :: ys) = .error .valueError := rfl
+@[simp] theorem arrZip_cons_nil (f : PV → PV → RV) (x : PV) (xs : List PV) :
+    arrZip f (x :: xs) [] = .error .valueError := rfl
+/-- elementwise operation on two embedded lists of the same length. -/
+theorem arrZip_map {α β} {f : PV → PV → RV} {ea : α → PV} {eb : β → PV} {g : α → β → PV}
+    (h : ∀ a b, f (ea a) (eb b) = .ok (g a b)) {xs : List α} {ys : List β} (hl : xs.length = ys.length) :
+    arrZip f (xs.map ea) (ys.map eb) = .ok (List.zipWith g xs ys) := by
+  induction xs generalizing ys with
+  | nil => cases ys with
+    | nil => rfl
+    | cons y ys => simp at hl
+  | cons x xs ih => cases ys with
+    | nil => simp at hl
+    | cons y ys =>
+      rw [List.map_cons, List.map_cons, arrZip_cons, h x y, ih (by simpa using hl)]; rfl
+/-- shapes that do not broadcast: `ValueError` (when no elementwise operation fails first). -/
+theorem arrZip_map_length_ne {α β} {f : PV → PV → RV} {ea : α → PV} {eb : β → PV} {g : α → β → PV}
+    (h : ∀ a b, f (ea a) (eb b) = .ok (g a b)) {xs : List α} {ys : List β} (hl : xs.length ≠ ys.length) :
+    arrZip f (xs.map ea) (ys.map eb) = .error .valueError := by
+  induction xs generalizing ys with
+  | nil => cases ys with
+    | nil => exact absurd rfl hl
+    | cons y ys => rfl
+  | cons x xs ih => cases ys with
+    | nil => rfl
+    | cons y ys =>
+      rw [List.map_cons, List.map_cons, arrZip_cons, h x y, ih (by simpa using hl)]; rfl
+
+@[simp] theorem arrBroadcast_arr_arr (f : PV → PV → RV) (xs ys : List PV) :
+    arrBroadcast f (.arr xs) (.arr ys) = (arrZip f xs ys).map .arr := rfl
+@[simp] theorem arrBroadcast_arr_int (f : PV → PV → RV) (xs : List PV) (b : Int) :
+    arrBroadcast f (.arr xs) (.int b) = (mapM' (fun x => f x (.int b)) xs).map .arr := rfl
+@[simp] theorem arrBroadcast_int_arr (f : PV → PV → RV) (a : Int) (ys : List PV) :
+    arrBroadcast f (.int a) (.arr ys) = (mapM' (fun y => f (.int a) y) ys).map .arr := rfl
+@[simp] theorem arrBroadcast_int_int (f : PV → PV → RV) (a b : Int) :
+    arrBroadcast f (.int a) (.int b) = f (.int a) (.int b) := rfl
+
+/-- array ∘ array, same length. -/
+theorem arrBroadcast_map_map {α β} {f : PV → PV → RV} {ea : α → PV} {eb : β → PV} {g : α → β → PV}
+    (h : ∀ a b, f (ea a) (eb b) = .ok (g a b)) {xs : List α} {ys : List β} (hl : xs.length = ys.length) :
+    arrBroadcast f (.arr (xs.map ea)) (.arr (ys.map eb)) = .ok (.arr (List.zipWith g xs ys)) := by
+  rw [arrBroadcast_arr_arr, arrZip_map h hl]; rfl
+/-- array ∘ integer scalar. -/
+theorem arrBroadcast_map_int {α} {f : PV → PV → RV} {ea : α → PV} {b : Int} {g : α → PV}
+    (h : ∀ a, f (ea a) (.int b) = .ok (g a)) (xs : List α) :
+    arrBroadcast f (.arr (xs.map ea)) (.int b) = .ok (.arr (xs.map g)) := by
+  rw [arrBroadcast_arr_int, mapM'_map (fun a _ => h a)]; rfl
+/-- integer scalar ∘ array. -/
+theorem arrBroadcast_int_map {β} {f : PV → PV → RV} {eb : β → PV} {a : Int} {g : β → PV}
+    (h : ∀ b, f (.int a) (eb b) = .ok (g b)) (ys : List β) :
+    arrBroadcast f (.int a) (.arr (ys.map eb)) = .ok (.arr (ys.map g)) := by
+  rw [arrBroadcast_int_arr, mapM'_map (fun b _ => h b)]; rfl
+
+/-! ### scalars -/
+
+@[simp] theorem npSub_int (a b : Int) : npSub (.int a) (.int b) = .ok (.int (a - b)) := rfl
+@[simp] theorem npAdd_int (a b : Int) : npAdd (.int a) (.int b) = .ok (.int (a + b)) := rfl
+@[simp] theorem npMul_int (a b : Int) : npMul (.int a) (.int b) = .ok (.int (a * b)) := rfl
+/-- `dna_sequence + nucleotide`. -/
+@[simp] theorem npAdd_str (s t : List Char) : npAdd (.str s) (.str t) = .ok (.str (s ++ t)) := rfl
+@[simp] theorem npAdd_list (s t : List PV) : npAdd (.list s) (.list t) = .ok (.list (s ++ t)) := rfl
+theorem npSub_nat {a b : Nat} (h : b ≤ a) : npSub (.int a) (.int b) = .ok (.int ((a - b : Nat) : Int)) := by
+  simp; omega
+/-- `n - 1` with the literal `1`. -/
+theorem npSub_nat_one {a : Nat} (h : 1 ≤ a) : npSub (.int a) (.int 1) = .ok (.int ((a - 1 : Nat) : Int)) :=
+  npSub_nat (b := 1) h
+theorem npAdd_nat (a b : Nat) : npAdd (.int a) (.int b) = .ok (.int ((a + b : Nat) : Int)) := by simp
+theorem npMul_nat (a b : Nat) : npMul (.int a) (.int b) = .ok (.int ((a * b : Nat) : Int)) := by simp
+/-- the literals of the generated code (`location + 1`, `location + 2`, `bit * 2`). -/
+theorem npAdd_nat_one (a : Nat) : npAdd (.int a) (.int 1) = .ok (.int ((a + 1 : Nat) : Int)) := npAdd_nat a 1
+theorem npAdd_nat_two (a : Nat) : npAdd (.int a) (.int 2) = .ok (.int ((a + 2 : Nat) : Int)) := npAdd_nat a 2
+theorem npMul_nat_two (a : Nat) : npMul (.int a) (.int 2) = .ok (.int ((a * 2 : Nat) : Int)) := npMul_nat a 2
+
+/-! ### integer arrays -/
+
+theorem npSub_ints_ints {xs ys : List Int} (hl : xs.length = ys.length) :
+    npSub (.arr (xs.map .int)) (.arr (ys.map .int)) = .ok (.arr ((List.zipWith (· - ·) xs ys).map .int)) := by
+  rw [npSub, arrBroadcast_map_map (g := fun a b => PV.int (a - b)) (fun _ _ => rfl) hl, List.map_zipWith]
+theorem npAdd_ints_ints {xs ys : List Int} (hl : xs.length = ys.length) :
+    npAdd (.arr (xs.map .int)) (.arr (ys.map .int)) = .ok (.arr ((List.zipWith (· + ·) xs ys).map .int)) := by
+  rw [npAdd, arrBroadcast_map_map (g := fun a b => PV.int (a + b)) (fun _ _ => rfl) hl, List.map_zipWith]
+theorem npMul_ints_ints {xs ys : List Int} (hl : xs.length = ys.length) :
+    npMul (.arr (xs.map .int)) (.arr (ys.map .int)) = .ok (.arr ((List.zipWith (· * ·) xs ys).map .int)) := by
+  rw [npMul, arrBroadcast_map_map (g := fun a b => PV.int (a * b)) (fun _ _ => rfl) hl, List.map_zipWith]
+/-- the same on embedded naturals (the difference is an integer). -/
+theorem npSub_nats_nats {xs ys : List Nat} (hl : xs.length = ys.length) :
+    npSub (.arr (xs.map fun (n : Nat) => .int (n : Int))) (.arr (ys.map fun (n : Nat) => .int (n : Int))) =
+      .ok (.arr ((List.zipWith (fun (a b : Nat) => (a : Int) - (b : Int)) xs ys).map .int)) := by
+  rw [npSub, arrBroadcast_map_map (g := fun (a b : Nat) => PV.int ((a : Int) - (b : Int))) (fun _ _ => rfl) hl,
+    List.map_zipWith]
+theorem npSub_ints_int (xs : List Int) (b : Int) :
+    npSub (.arr (xs.map .int)) (.int b) = .ok (.arr ((xs.map (· - b)).map .int)) := by
+  rw [npSub, arrBroadcast_map_int (g := fun a => PV.int (a - b)) (fun _ => rfl), List.map_map]; rfl
+theorem npAdd_ints_int (xs : List Int) (b : Int) :
+    npAdd (.arr (xs.map .int)) (.int b) = .ok (.arr ((xs.map (· + b)).map .int)) := by
+  rw [npAdd, arrBroadcast_map_int (g := fun a => PV.int (a + b)) (fun _ => rfl), List.map_map]; rfl
+theorem npMul_ints_int (xs : List Int) (b : Int) :
+    npMul (.arr (xs.map .int)) (.int b) = .ok (.arr ((xs.map (· * b)).map .int)) := by
+  rw [npMul, arrBroadcast_map_int (g := fun a => PV.int (a * b)) (fun _ => rfl), List.map_map]; rfl
+
+/-! ### comparisons -/
+
+@[simp] theorem liftCmp_def (c : PV → PV → R Bool) (a b : PV) : liftCmp c a b = (c a b).map .bool := rfl
+/-- on scalars `npCmp` is the Python comparison (as a `bool` value). -/
+@[simp] theorem npCmp_int_int (c : PV → PV → R Bool) (a b : Int) :
+    npCmp c (.int a) (.int b) = (c (.int a) (.int b)).map .bool := rfl
+@[simp] theorem npCmp_str_str (c : PV → PV → R Bool) (s t : List Char) :
+    npCmp c (.str s) (.str t) = (c (.str s) (.str t)).map .bool := rfl
+theorem npCmp_pyGt_nat (a b : Nat) : npCmp pyGt (.int a) (.int b) = .ok (.bool (decide (b < a))) := by simp
+/-- `radix > 1` with the literal `1`. -/
+theorem npCmp_pyGt_nat_one (a : Nat) : npCmp pyGt (.int a) (.int 1) = .ok (.bool (decide (1 < a))) :=
+  npCmp_pyGt_nat a 1
+
+/-- an integer array against an integer: an array of bools. -/
+theorem npCmp_ints_int {c : PV → PV → R Bool} {b : Int} {p : Int → Bool}
+    (h : ∀ x, c (.int x) (.int b) = .ok (p x)) (xs : List Int) :
+    npCmp c (.arr (xs.map .int)) (.int b) = .ok (.arr (xs.map fun x => .bool (p x))) := by
+  rw [npCmp, arrBroadcast_map_int (g := fun x => PV.bool (p x))]
+  intro x; rw [liftCmp_def, h]; rfl
+theorem npCmp_nats_int {c : PV → PV → R Bool} {b : Int} {p : Nat → Bool}
+    (h : ∀ x : Nat, c (.int x) (.int b) = .ok (p x)) (xs : List Nat) :
+    npCmp c (.arr (xs.map fun (n : Nat) => .int (n : Int))) (.int b) = .ok (.arr (xs.map fun x => .bool (p x))) := by
+  rw [npCmp, arrBroadcast_map_int (g := fun x => PV.bool (p x))]
+  intro x; rw [liftCmp_def, h]; rfl
+theorem npCmp_pyGe_ints_int (xs : List Int) (b : Int) :
+    npCmp pyGe (.arr (xs.map .int)) (.int b) = .ok (.arr (xs.map fun x => .bool (decide (b ≤ x)))) :=
+  npCmp_ints_int (fun _ => rfl) xs
+theorem npCmp_pyGt_ints_int (xs : List Int) (b : Int) :
+    npCmp pyGt (.arr (xs.map .int)) (.int b) = .ok (.arr (xs.map fun x => .bool (decide (b < x)))) :=
+  npCmp_ints_int (fun _ => rfl) xs
+theorem npCmp_pyLe_ints_int (xs : List Int) (b : Int) :
+    npCmp pyLe (.arr (xs.map .int)) (.int b) = .ok (.arr (xs.map fun x => .bool (decide (x ≤ b)))) :=
+  npCmp_ints_int (fun _ => rfl) xs
+theorem npCmp_pyLt_ints_int (xs : List Int) (b : Int) :
+    npCmp pyLt (.arr (xs.map .int)) (.int b) = .ok (.arr (xs.map fun x => .bool (decide (x < b)))) :=
+  npCmp_ints_int (fun _ => rfl) xs
+theorem npCmp_pyEq_ints_int (xs : List Int) (b : Int) :
+    npCmp pyEq (.arr (xs.map .int)) (.int b) = .ok (.arr (xs.map fun x => .bool (x == b))) :=
+  npCmp_ints_int (fun x => by simp) xs
+theorem natCast_beq (x b : Nat) : ((x : Int) == (b : Int)) = (x == b) := by
+  rw [Bool.eq_iff_iff]; simp only [beq_iff_eq]; omega
+/-- `argsort(...) == position` on embedded naturals. -/
+theorem npCmp_pyEq_nats_nat (xs : List Nat) (b : Nat) :
+    npCmp pyEq (.arr (xs.map fun (n : Nat) => .int (n : Int))) (.int b) =
+      .ok (.arr (xs.map fun x => .bool (x == b))) :=
+  npCmp_nats_int (fun x => by rw [pyEq_def, eqb_int, natCast_beq]) xs
+
+/-! ## §4 `trueIdx` / `npWhere` -/
+
+@[simp] theorem trueIdx_nil (i : Nat) : trueIdx [] i = [] := rfl
+theorem trueIdx_cons (x : PV) (xs : List PV) (i : Nat) :
+    trueIdx (x :: xs) i = if x.truthy then .int i :: trueIdx xs (i + 1) else trueIdx xs (i + 1) := rfl
+@[simp] theorem trueIdx_cons_bool (b : Bool) (xs : List PV) (i : Nat) :
+    trueIdx (.bool b :: xs) i = if b then .int i :: trueIdx xs (i + 1) else trueIdx xs (i + 1) := rfl
+@[simp] theorem npWhere_arr (l : List PV) : npWhere (.arr l) = .ok (.tup [.arr (trueIdx l 0)]) := rfl
+/-- `where(cond)[0]`. -/
+theorem npWhere_zero (l : List PV) :
+    (bnd (npWhere (.arr l)) fun t => pyIndex t (.int 0)) = .ok (.arr (trueIdx l 0)) := rfl
+
+/-- the indices of the truthy entries, as a filter of the positions. -/
+theorem trueIdx_eq_filter_range {l : List PV} (q : Nat → Bool)
+    (hq : ∀ (j : Nat) (h : j < l.length), l[j].truthy = q j) (i : Nat) :
+    trueIdx l i = ((List.range l.length).filter q).map fun (j : Nat) => PV.int ((i + j : Nat) : Int) := by
+  induction l generalizing q i with
+  | nil => rfl
+  | cons x xs ih =>
+    have h0 : x.truthy = q 0 := hq 0 (by simp)
+    have ih' := ih (fun j => q (j + 1)) (fun j h => hq (j + 1) (by simpa using h)) (i + 1)
+    rw [trueIdx_cons, ih', h0, List.length_cons, List.range_succ_eq_map, List.filter_cons, List.filter_map]
+    have hm : (List.map (fun (j : Nat) => PV.int ((i + 1 + j : Nat) : Int))
+          (List.filter (fun j => q (j + 1)) (List.range xs.length))) =
+        List.map (fun (j : Nat) => PV.int ((i + j : Nat) : Int))
+          (List.map Nat.succ (List.filter (q ∘ Nat.succ) (List.range xs.length))) := by
+      rw [List.map_map]
+      apply List.map_congr_left
+      intro j _
+      simp only [Function.comp, Nat.succ_eq_add_one]
+      congr 2; omega
+    rw [hm]
+    cases q 0 <;> simp
+/-- an array of bools computed from a list. -/
+theorem trueIdx_map_bool {α} (p : α → Bool) (l : List α) (d : α) (i : Nat) :
+    trueIdx (l.map fun x => .bool (p x)) i =
+      ((List.range l.length).filter fun j => p (l.getD j d)).map fun (j : Nat) => PV.int ((i + j : Nat) : Int) := by
+  have := trueIdx_eq_filter_range (l := l.map fun x => PV.bool (p x)) (fun j => p (l.getD j d))
+    (fun j h => by
+      have h' : j < l.length := by simpa using h
+      simp [List.getD_eq_getElem?_getD, List.getElem?_eq_getElem h']) i
+  simpa using this
+/-- `where(bools)[0]` as an array of naturals. -/
+theorem npWhere_map_bool {α} (p : α → Bool) (l : List α) (d : α) :
+    (bnd (npWhere (.arr (l.map fun x => .bool (p x)))) fun t => pyIndex t (.int 0)) =
+      .ok (.arr (((List.range l.length).filter fun j => p (l.getD j d)).map fun (j : Nat) => PV.int (j : Int))) := by
+  rw [npWhere_zero, trueIdx_map_bool p l d 0]; simp
+
+/-- `where(arr == p)[0]` starts with the first position of `p`. -/
+theorem trueIdx_beq_of_mem {l : List Nat} {p : Nat} (h : p ∈ l) (i : Nat) :
+    ∃ rest, trueIdx (l.map fun x => .bool (x == p)) i = .int ((i + l.idxOf p : Nat) : Int) :: rest := by
+  induction l generalizing i with
+  | nil => simp at h
+  | cons x xs ih =>
+    by_cases hx : x = p
+    · subst hx
+      exact ⟨trueIdx (xs.map fun y => .bool (y == x)) (i + 1), by simp⟩
+    · have hm : p ∈ xs := by
+        rcases List.mem_cons.mp h with h | h
+        · exact absurd h.symm hx
+        · exact h
+      obtain ⟨rest, hr⟩ := ih hm (i + 1)
+      refine ⟨rest, ?_⟩
+      have hb : (x == p) = false := by simpa using hx
+      rw [List.map_cons, trueIdx_cons_bool, hb, hr, list_idxOf_cons_ne _ hx]
+      simp only [Bool.false_eq_true, if_false]
+      congr 3; omega
+theorem trueIdx_beq_of_not_mem {l : List Nat} {p : Nat} (h : p ∉ l) (i : Nat) :
+    trueIdx (l.map fun x => .bool (x == p)) i = [] := by
+  induction l generalizing i with
+  | nil => rfl
+  | cons x xs ih =>
+    have hx : x ≠ p := fun e => h (by simp [e])
+    have hb : (x == p) = false := by simpa using hx
+    rw [List.map_cons, trueIdx_cons_bool, hb, ih (fun hm => h (by simp [hm]))]; rfl
+/-- the idiom `where(arr == p)[0][0]`: the first position of `p`. -/
+theorem where_eq_first {l : List Nat} {p : Nat} (h : p ∈ l) :
+    (bnd (bnd (bnd (npCmp pyEq (.arr (l.map fun (n : Nat) => .int (n : Int))) (.int p)) fun t => npWhere t)
+        fun t => pyIndex t (.int 0)) fun t => pyIndex t (.int 0)) = .ok (.int ((l.idxOf p : Nat) : Int)) := by
+  obtain ⟨rest, hr⟩ := trueIdx_beq_of_mem h 0
+  rw [npCmp_pyEq_nats_nat]
+  simp only [bnd_ok, npWhere_arr, pyIndex_tup_cons_zero, hr, pyIndex_arr_cons_zero, Nat.zero_add]
+/-- … `IndexError` when `p` does not occur. -/
+theorem where_eq_first_of_not_mem {l : List Nat} {p : Nat} (h : p ∉ l) :
+    (bnd (bnd (bnd (npCmp pyEq (.arr (l.map fun (n : Nat) => .int (n : Int))) (.int p)) fun t => npWhere t)
+        fun t => pyIndex t (.int 0)) fun t => pyIndex t (.int 0)) = .error .indexError := by
+  rw [npCmp_pyEq_nats_nat]
+  simp only [bnd_ok, npWhere_arr, pyIndex_tup_cons_zero, trueIdx_beq_of_not_mem h 0, pyIndex_arr_nil]
+
+/-! ## §5 accessors and shuffle tables -/
+
+/-- a row of an accessor / of a shuffle table as the one-dimensional integer array the code sees. -/
+def rowPV (r : Array Int) : PV := .arr (r.toList.map .int)
+
+theorem accPV_eq (a : Acc) : accPV a = .arr (a.toList.map rowPV) := rfl
+theorem tblPV_some (t : Tbl) : tblPV (some t) = accPV t := rfl
+@[simp] theorem tblPV_none : tblPV Option.none = .none := rfl
+@[simp] theorem pyLen_accPV (a : Acc) : pyLen (accPV a) = .ok (.int a.size) := by simp [accPV]
+@[simp] theorem pyLen_rowPV (r : Array Int) : pyLen (rowPV r) = .ok (.int r.size) := by simp [rowPV]
+
+/-! ### rows -/
+
+/-- `accessor[v]` for a row index given as a non-negative integer. -/
+theorem row_of_nonneg {a : Acc} {v : Int} (h0 : 0 ≤ v) (hv : v < a.size) : a.row v = a.getD v.toNat #[] := by
+  have h1 : ¬ (v < 0) := by omega
+  simp only [Acc.row, h1, if_false, h0, hv, and_self, if_true]
+theorem row_natCast {a : Acc} {v : Nat} (hv : v < a.size) : a.row (v : Int) = a.getD v #[] := by
+  rw [row_of_nonneg (by omega) (by omega)]; rfl
+theorem row_mem_toList {a : Acc} {v : Int} (h0 : 0 ≤ v) (hv : v < a.size) : a.row v ∈ a.toList := by
+  have h : v.toNat < a.size := by omega
+  rw [row_of_nonneg h0 hv, Array.getD_eq_getD_getElem?, Array.getElem?_eq_getElem h, Option.getD_some]
+  exact Array.mem_toList_iff.mpr (Array.getElem_mem h)
+
+/-- `accessor[v]` for any integer `v` (negative indices wrap once, as in `Acc.row`). -/
+theorem pyIndex_accPV (a : Acc) (v : Int) :
+    pyIndex (accPV a) (.int v) =
+      if -(a.size : Int) ≤ v ∧ v < a.size then .ok (rowPV (a.row v)) else .error .indexError := by
+  rw [accPV_eq, pyIndex_arr_eq, normIndex_eq, List.length_map, Array.length_toList]
+  by_cases h : -(a.size : Int) ≤ v ∧ v < a.size
+  · rw [if_pos h, if_pos h]
+    have hj : (if v < 0 then v + a.size else v).toNat < a.size := by split <;> omega
+    have hr : a.row v = a.getD (if v < 0 then v + a.size else v).toNat #[] := by
+      have h2 : 0 ≤ (if v < 0 then v + (a.size : Int) else v) ∧ (if v < 0 then v + (a.size : Int) else v) < a.size := by
+        split <;> omega
+      simp only [Acc.row, h2, and_self, if_true]
+    simp only [hr, List.getD_eq_getElem?_getD, List.getElem?_map, Array.getElem?_toList,
+      Array.getD_eq_getD_getElem?, Array.getElem?_eq_getElem hj, Option.map_some, Option.getD_some]
+  · rw [if_neg h, if_neg h]
+theorem pyIndex_accPV_of_nonneg {a : Acc} {v : Int} (h0 : 0 ≤ v) (hv : v < a.size) :
+    pyIndex (accPV a) (.int v) = .ok (rowPV (a.row v)) := by
+  rw [pyIndex_accPV, if_pos (by omega)]
+theorem pyIndex_accPV_nat {a : Acc} {v : Nat} (hv : v < a.size) :
+    pyIndex (accPV a) (.int v) = .ok (rowPV (a.row v)) :=
+  pyIndex_accPV_of_nonneg (by omega) (by omega)
+theorem pyIndex_accPV_of_ge {a : Acc} {v : Int} (hv : (a.size : Int) ≤ v) :
+    pyIndex (accPV a) (.int v) = .error .indexError := by
+  rw [pyIndex_accPV, if_neg (by omega)]
+
+/-! ### entries -/
+
+theorem getD_toList_map_int (r : Array Int) (j : Nat) (d : Int) :
+    (r.toList.map PV.int).getD j .none = if j < r.size then .int (r.getD j d) else .none := by
+  rw [getD_map_int r.toList j d, Array.length_toList]
+  by_cases h : j < r.size
+  · simp [h, List.getD_eq_getElem?_getD, Array.getD_eq_getD_getElem?]
+  · simp [h]
+/-- `row[j]`. The default `d` is free: `-1` gives `Acc.ent`, `0` the keys of `Tbl.keys`. -/
+theorem pyIndex_rowPV {r : Array Int} {j : Nat} (h : j < r.size) (d : Int) :
+    pyIndex (rowPV r) (.int j) = .ok (.int (r.getD j d)) := by
+  rw [rowPV, pyIndex_arr_getD (by simpa using h), getD_toList_map_int r j d, if_pos h]
+theorem pyIndex_rowPV_int {r : Array Int} {j : Int} (h0 : 0 ≤ j) (h : j < r.size) (d : Int) :
+    pyIndex (rowPV r) (.int j) = .ok (.int (r.getD j.toNat d)) := by
+  have := pyIndex_rowPV (r := r) (j := j.toNat) (by omega) d
+  rwa [Int.toNat_of_nonneg h0] at this
+theorem pyIndex_rowPV_of_ge {r : Array Int} {j : Int} (h : (r.size : Int) ≤ j) :
+    pyIndex (rowPV r) (.int j) = .error .indexError :=
+  pyIndex_arr_of_ge (by simpa using h)
+/-- `accessor[v][j]` is `Acc.ent`. -/
+theorem pyIndex_row_ent {a : Acc} {v : Int} {j : Nat} (h : j < (a.row v).size) :
+    pyIndex (rowPV (a.row v)) (.int j) = .ok (.int (a.ent v j)) := pyIndex_rowPV h (-1)
+
+/-! ### well-formed accessors -/
+
+theorem _root_.Dsw.Acc.WF.row_size {a : Acc} (ha : a.WF) {v : Int} (h0 : 0 ≤ v) (hv : v < a.size) :
+    (a.row v).size = 4 := by
+  rw [row_of_nonneg h0 hv]; exact (ha v.toNat (by omega)).1
+/-- an entry is `-1` or a row index. -/
+theorem _root_.Dsw.Acc.WF.ent_cases {a : Acc} (ha : a.WF) {v : Int} (h0 : 0 ≤ v) (hv : v < a.size) {j : Nat}
+    (hj : j < 4) : a.ent v j = -1 ∨ (0 ≤ a.ent v j ∧ a.ent v j < a.size) := by
+  rw [Acc.ent, row_of_nonneg h0 hv]; exact (ha v.toNat (by omega)).2 j hj
+/-- the successor through a live column is a row index again (the loop invariant of the walks). -/
+theorem _root_.Dsw.Acc.WF.ent_of_live {a : Acc} (ha : a.WF) {v : Int} (h0 : 0 ≤ v) (hv : v < a.size) {j : Nat}
+    (hj : j ∈ a.live v) : 0 ≤ a.ent v j ∧ a.ent v j < a.size := by
+  obtain ⟨h4, hge⟩ := (mem_live_iff a v j).1 hj
+  rcases ha.ent_cases h0 hv h4 with h | h
+  · omega
+  · exact h
+/-- a non-negative entry is a row index. -/
+theorem _root_.Dsw.Acc.WF.ent_lt {a : Acc} (ha : a.WF) {v : Int} (h0 : 0 ≤ v) (hv : v < a.size) {j : Nat}
+    (hj : j < 4) (hge : 0 ≤ a.ent v j) : a.ent v j < a.size := by
+  rcases ha.ent_cases h0 hv hj with h | h
+  · omega
+  · exact h.2
+/-- the row of a well-formed accessor, spelled out. -/
+theorem _root_.Dsw.Acc.WF.row_toList {a : Acc} (ha : a.WF) {v : Int} (h0 : 0 ≤ v) (hv : v < a.size) :
+    (a.row v).toList = [a.ent v 0, a.ent v 1, a.ent v 2, a.ent v 3] := by
+  have hs := ha.row_size h0 hv
+  apply List.ext_getElem (by simpa using hs)
+  intro j h1 h2
+  have hj : j < (a.row v).size := by simpa using h1
+  have : j = 0 ∨ j = 1 ∨ j = 2 ∨ j = 3 := by omega
+  rcases this with rfl | rfl | rfl | rfl <;> simp [Acc.ent, Array.getD_eq_getD_getElem?, hj]
+theorem _root_.Dsw.Acc.WF.rowPV_eq {a : Acc} (ha : a.WF) {v : Int} (h0 : 0 ≤ v) (hv : v < a.size) :
+    rowPV (a.row v) = .arr [.int (a.ent v 0), .int (a.ent v 1), .int (a.ent v 2), .int (a.ent v 3)] := by
+  rw [rowPV, ha.row_toList h0 hv]; rfl
+
+/-- the live columns as the array `used_indices`. -/
+theorem live_eq_filter_row (a : Acc) (v : Int) :
+    a.live v = (List.range 4).filter fun j => decide (0 ≤ [a.ent v 0, a.ent v 1, a.ent v 2, a.ent v 3].getD j 0) := by
+  unfold Acc.live
+  apply List.filter_congr
+  intro j hj
+  have : j = 0 ∨ j = 1 ∨ j = 2 ∨ j = 3 := by have := List.mem_range.mp hj; omega
+  rcases this with rfl | rfl | rfl | rfl <;> rfl
+
+/-- the idiom `where(accessor[v] >= 0)[0]`: the live columns `Acc.live a v`. -/
+theorem where_row_ge_zero {a : Acc} (ha : a.WF) {v : Int} (h0 : 0 ≤ v) (hv : v < a.size) :
+    (bnd (bnd (bnd (pyIndex (accPV a) (.int v)) fun t => npCmp pyGe t (.int 0)) fun t => npWhere t)
+        fun t => pyIndex t (.int 0)) = .ok (.arr ((a.live v).map fun (j : Nat) => .int (j : Int))) := by
+  rw [pyIndex_accPV_of_nonneg h0 hv, bnd_ok, rowPV, ha.row_toList h0 hv, npCmp_pyGe_ints_int, bnd_ok,
+    npWhere_map_bool (fun x => decide ((0 : Int) ≤ x)) _ 0, live_eq_filter_row]
+  rfl
+/-- the idiom `accessor[v][j]`. -/
+theorem acc_index_index {a : Acc} (ha : a.WF) {v : Int} (h0 : 0 ≤ v) (hv : v < a.size) {j : Nat} (hj : j < 4) :
+    (bnd (pyIndex (accPV a) (.int v)) fun t => pyIndex t (.int j)) = .ok (.int (a.ent v j)) := by
+  rw [pyIndex_accPV_of_nonneg h0 hv, bnd_ok, pyIndex_row_ent (by rw [ha.row_size h0 hv]; exact hj)]
+/-- `a[v, j]` with an integer column. -/
+theorem npIndex2_accPV_int {a : Acc} {v : Int} (h0 : 0 ≤ v) (hv : v < a.size) {j : Nat}
+    (hj : j < (a.row v).size) : npIndex2 (accPV a) (.int v) (.int j) = .ok (.int (a.ent v j)) := by
+  simp only [npIndex2, pyIndex_accPV_of_nonneg h0 hv, pyIndex_row_ent hj]
+
+/-! ### shuffle tables -/
+
+/-- `shuffles[v, used_indices]` (gather): the keys `Tbl.keys`. -/
+theorem npIndex2_accPV_arr {t : Tbl} {v : Int} (h0 : 0 ≤ v) (hv : v < t.size) {used : List Nat}
+    (hu : ∀ j ∈ used, j < (Acc.row t v).size) :
+    npIndex2 (accPV t) (.int v) (.arr (used.map fun (j : Nat) => .int (j : Int))) =
+      .ok (.arr ((t.keys v used).map .int)) := by
+  simp only [npIndex2, pyIndex_accPV_of_nonneg h0 hv]
+  rw [mapM'_map (g := fun j => PV.int ((Acc.row t v).getD j 0)) (fun j hj => pyIndex_rowPV (hu j hj) 0)]
+  simp [Tbl.keys]
+theorem _root_.Dsw.Tie.TblOK.lt_size {t : Tbl} {a : Acc} (ht : TblOK (some t) a) {v : Int} (hv : v < a.size) :
+    v < t.size := by
+  have := (ht t rfl).1; omega
+theorem _root_.Dsw.Tie.TblOK.row_size {t : Tbl} {a : Acc} (ht : TblOK (some t) a) {v : Int} (h0 : 0 ≤ v)
+    (hv : v < a.size) : (Acc.row t v).size = 4 :=
+  (ht t rfl).2 _ (row_mem_toList h0 (ht.lt_size hv))
+theorem TblOK_none (a : Acc) : TblOK Option.none a := fun _ h => by cases h
+
+/-- `shuffles[v, used_indices]` under `TblOK`. -/
+theorem shuffles_gather {t : Tbl} {a : Acc} (ht : TblOK (some t) a) {v : Int} (h0 : 0 ≤ v) (hv : v < a.size)
+    {used : List Nat} (hu : ∀ j ∈ used, j < 4) :
+    npIndex2 (tblPV (some t)) (.int v) (.arr (used.map fun (j : Nat) => .int (j : Int))) =
+      .ok (.arr ((t.keys v used).map .int)) :=
+  npIndex2_accPV_arr h0 (ht.lt_size hv) (fun j hj => by rw [ht.row_size h0 hv]; exact hu j hj)
+/-- the idiom `argsort(shuffles[v, used_indices])`. -/
+theorem shuffles_argsort {t : Tbl} {a : Acc} (ht : TblOK (some t) a) {v : Int} (h0 : 0 ≤ v) (hv : v < a.size)
+    {used : List Nat} (hu : ∀ j ∈ used, j < 4) :
+    (bnd (npIndex2 (tblPV (some t)) (.int v) (.arr (used.map fun (j : Nat) => .int (j : Int)))) fun k => npArgsort k) =
+      .ok (.arr ((argsort (t.keys v used)).map fun (i : Nat) => .int (i : Int))) := by
+  rw [shuffles_gather ht h0 hv hu, bnd_ok, npArgsort_ints]
+/-- the idiom `argsort(shuffles[v, used_indices])[d]`: `digitToPos`. -/
+theorem shuffles_digitToPos {t : Tbl} {a : Acc} (ht : TblOK (some t) a) {v : Int} (h0 : 0 ≤ v) (hv : v < a.size)
+    {used : List Nat} (hu : ∀ j ∈ used, j < 4) {d : Nat} (hd : d < used.length) :
+    (bnd (bnd (npIndex2 (tblPV (some t)) (.int v) (.arr (used.map fun (j : Nat) => .int (j : Int))))
+        fun k => npArgsort k) fun k => pyIndex k (.int d)) =
+      .ok (.int ((digitToPos (some t) v used d : Nat) : Int)) := by
+  rw [shuffles_argsort ht h0 hv hu, bnd_ok,
+    pyIndex_nats_nat (by rw [argsort_length, keys_length]; exact hd)]
+  rfl
+/-- the idiom `where(argsort(shuffles[v, used_indices]) == p)[0][0]`: `posToDigit`. -/
+theorem shuffles_posToDigit {t : Tbl} {a : Acc} (ht : TblOK (some t) a) {v : Int} (h0 : 0 ≤ v) (hv : v < a.size)
+    {used : List Nat} (hu : ∀ j ∈ used, j < 4) {p : Nat} (hp : p < used.length) :
+    (bnd (bnd (bnd (bnd (bnd (npIndex2 (tblPV (some t)) (.int v) (.arr (used.map fun (j : Nat) => .int (j : Int))))
+        fun k => npArgsort k) fun k => npCmp pyEq k (.int p)) fun k => npWhere k) fun k => pyIndex k (.int 0))
+        fun k => pyIndex k (.int 0)) =
+      .ok (.int ((posToDigit (some t) v used p : Nat) : Int)) := by
+  rw [shuffles_argsort ht h0 hv hu, bnd_ok,
+    where_eq_first ((mem_argsort _ _).2 (by rw [keys_length]; exact hp))]
+  rfl
+
+/-! ## §6 `None` tests, nucleotide columns, powers -/
+
+/-! ### `x is None` -/
+
+@[simp] theorem pyIsNone_none : pyIsNone .none = true := rfl
+@[simp] theorem pyIsNone_int (i : Int) : pyIsNone (.int i) = false := rfl
+@[simp] theorem pyIsNone_str (s : List Char) : pyIsNone (.str s) = false := rfl
+@[simp] theorem pyIsNone_list (l : List PV) : pyIsNone (.list l) = false := rfl
+@[simp] theorem pyIsNone_tup (l : List PV) : pyIsNone (.tup l) = false := rfl
+@[simp] theorem pyIsNone_bool (b : Bool) : pyIsNone (.bool b) = false := rfl
+@[simp] theorem pyIsNone_arr (l : List PV) : pyIsNone (.arr l) = false := rfl
+@[simp] theorem pyIsNone_accPV (a : Acc) : pyIsNone (accPV a) = false := rfl
+@[simp] theorem pyIsNone_bitsPV (l : List Nat) : pyIsNone (bitsPV l) = false := rfl
+/-- `shuffles is not None`. -/
+theorem pyIsNone_tblPV (tbl : Option Tbl) : pyIsNone (tblPV tbl) = tbl.isNone := by cases tbl <;> rfl
+/-- `vt_check is not None`. -/
+theorem pyIsNone_chkPV (chk : Option (List Char)) : pyIsNone (chkPV chk) = chk.isNone := by cases chk <;> rfl
+@[simp] theorem chkPV_none : chkPV Option.none = .none := rfl
+@[simp] theorem chkPV_some (c : List Char) : chkPV (some c) = .str c := rfl
+
+/-! ### nucleotide columns -/
+
+/-- `==` on one-character strings. -/
+theorem eqb_char_str (c d : Char) : PV.eqb (.str [c]) (.str [d]) = decide (c = d) := by
+  by_cases h : c = d <;> simp [h]
+theorem nucIdx_nucChar {j : Nat} (h : j < 4) : nucIdx (nucChar j) = some j := by
+  have : j = 0 ∨ j = 1 ∨ j = 2 ∨ j = 3 := by omega
+  rcases this with rfl | rfl | rfl | rfl <;> rfl
+theorem nucChar_inj {i j : Nat} (hi : i < 4) (hj : j < 4) : nucChar i = nucChar j ↔ i = j := by
+  constructor
+  · intro h
+    have := congrArg nucIdx h
+    rw [nucIdx_nucChar hi, nucIdx_nucChar hj] at this
+    exact Option.some.inj this
+  · intro h; rw [h]
+/-- a letter outside `ACGT` is no `nucChar`. -/
+theorem nucChar_ne_of_nucIdx_none {c : Char} (h : nucIdx c = Option.none) {j : Nat} (hj : j < 4) :
+    nucChar j ≠ c := by
+  intro he; rw [← he, nucIdx_nucChar hj] at h; cases h
+
+@[simp] theorem pyIndexOf_str (s : List Char) (x : PV) : pyIndexOf (.str s) x = pyStrIndex (.str s) x := rfl
+/-- `nucleotides.index(c)`. -/
+theorem pyIndexOf_ACGT (c : Char) :
+    pyIndexOf (.str ['A', 'C', 'G', 'T']) (.str [c]) =
+      match nucIdx c with
+      | some j => .ok (.int j)
+      | Option.none => .error .valueError := pyStrIndex_ACGT c
+theorem pyIndexOf_ACGT_of_some {c : Char} {j : Nat} (h : nucIdx c = some j) :
+    pyIndexOf (.str ['A', 'C', 'G', 'T']) (.str [c]) = .ok (.int j) := pyStrIndex_ACGT_of_some h
+theorem pyIndexOf_ACGT_of_none {c : Char} (h : nucIdx c = Option.none) :
+    pyIndexOf (.str ['A', 'C', 'G', 'T']) (.str [c]) = .error .valueError := pyStrIndex_ACGT_of_none h
+/-- `nucleotides[j]` for a column given as an integer entry. -/
+theorem pyIndex_ACGT_int {j : Int} (h0 : 0 ≤ j) (h : j < 4) :
+    pyIndex (.str ['A', 'C', 'G', 'T']) (.int j) = .ok (.str [nucChar j.toNat]) := by
+  have := pyIndex_ACGT (j := j.toNat) (by omega)
+  rwa [Int.toNat_of_nonneg h0] at this
+
+/-- `[nucleotides[i] for i in used_indices]`. -/
+theorem pyMap_nucs {used : List Nat} (hu : ∀ j ∈ used, j < 4) :
+    pyMap (fun it => pyIndex (.str ['A', 'C', 'G', 'T']) it) (.arr (used.map fun (j : Nat) => .int (j : Int))) =
+      .ok (.list (used.map fun j => .str [nucChar j])) :=
+  pyMap_arr_map (fun j hj => pyIndex_ACGT (hu j hj))
+
+@[simp] theorem findIdxEq_nil (x : PV) (i : Nat) : findIdxEq x [] i = Option.none := rfl
+theorem findIdxEq_cons (x y : PV) (ys : List PV) (i : Nat) :
+    findIdxEq x (y :: ys) i = if PV.eqb y x then some i else findIdxEq x ys (i + 1) := rfl
+/-- first position of a letter in a list of one-letter strings. -/
+theorem findIdxEq_chars (c : Char) (cs : List Char) (i : Nat) :
+    findIdxEq (.str [c]) (cs.map fun d => .str [d]) i = if c ∈ cs then some (i + cs.idxOf c) else Option.none := by
+  induction cs generalizing i with
+  | nil => rfl
+  | cons d r ih =>
+    rw [List.map_cons, findIdxEq_cons, eqb_char_str, ih]
+    by_cases hd : d = c
+    · subst hd; simp
+    · have hne : ¬ c = d := fun e => hd e.symm
+      have hb : (d == c) = false := by simpa using hd
+      simp only [hd, decide_false, Bool.false_eq_true, if_false, List.mem_cons, hne, false_or,
+        List.idxOf_cons, hb, cond_false]
+      split
+      · congr 1; omega
+      · rfl
+/-- `x in letters` for a list of one-letter strings. -/
+theorem pyIn_chars (c : Char) (cs : List Char) :
+    pyIn (.str [c]) (.list (cs.map fun d => .str [d])) = .ok (decide (c ∈ cs)) := by
+  simp only [pyIn, findIdxEq_chars]
+  by_cases h : c ∈ cs <;> simp [h]
+theorem pyIndexOf_chars_of_mem {c : Char} {cs : List Char} (h : c ∈ cs) :
+    pyIndexOf (.list (cs.map fun d => .str [d])) (.str [c]) = .ok (.int ((cs.idxOf c : Nat) : Int)) := by
+  simp only [pyIndexOf, findIdxEq_chars, h, if_true, Nat.zero_add]
+theorem pyIndexOf_chars_of_not_mem {c : Char} {cs : List Char} (h : c ∉ cs) :
+    pyIndexOf (.list (cs.map fun d => .str [d])) (.str [c]) = .error .valueError := by
+  simp only [pyIndexOf, findIdxEq_chars, h, if_false]
+
+/-- first position of the letter `c` among the letters of the columns `used` (all below 4):
+the computation inside `livePos`. -/
+theorem findIdxEq_nucs (c : Char) {used : List Nat} (hu : ∀ j ∈ used, j < 4) (i : Nat) :
+    findIdxEq (.str [c]) (used.map fun j => .str [nucChar j]) i =
+      match nucIdx c with
+      | Option.none => Option.none
+      | some j => if used.contains j then some (i + used.idxOf j) else Option.none := by
+  induction used generalizing i with
+  | nil => cases nucIdx c <;> rfl
+  | cons u r ih =>
+    have hu4 : u < 4 := hu u (by simp)
+    have ih' := ih (fun j hj => hu j (by simp [hj])) (i + 1)
+    rw [List.map_cons, findIdxEq_cons, eqb_char_str, ih']
+    cases hc : nucIdx c with
+    | none =>
+      have := nucChar_ne_of_nucIdx_none hc hu4
+      simp [this]
+    | some j =>
+      have hj4 := nucIdx_lt hc
+      have hcj : nucChar j = c := nucChar_nucIdx hc
+      by_cases huj : u = j
+      · subst huj; simp [hcj]
+      · have hne : ¬ nucChar u = c := fun e => huj ((nucChar_inj hu4 hj4).1 (e.trans hcj.symm))
+        have hb : (u == j) = false := by simpa using huj
+        simp only [hne, decide_false, Bool.false_eq_true, if_false, List.contains_cons, hb, Bool.false_or,
+          List.idxOf_cons, cond_false, BEq.comm (a := j) (b := u)]
+        split
+        · congr 1; omega
+        · rfl
+/-- `nucleotide in used_nucleotides` / `used_nucleotides.index(nucleotide)` are `livePos`. -/
+theorem findIdxEq_live (a : Acc) (v : Int) (c : Char) :
+    findIdxEq (.str [c]) ((a.live v).map fun j => .str [nucChar j]) 0 = livePos a v c := by
+  rw [findIdxEq_nucs c (fun j hj => live_lt_four a v hj) 0, livePos]
+  cases nucIdx c with
+  | none => rfl
+  | some j => simp
+theorem pyIn_live (a : Acc) (v : Int) (c : Char) :
+    pyIn (.str [c]) (.list ((a.live v).map fun j => .str [nucChar j])) = .ok (livePos a v c).isSome := by
+  simp only [pyIn, findIdxEq_live]
+theorem pyIndexOf_live (a : Acc) (v : Int) (c : Char) :
+    pyIndexOf (.list ((a.live v).map fun j => .str [nucChar j])) (.str [c]) =
+      match livePos a v c with
+      | some p => .ok (.int (p : Int))
+      | Option.none => .error .valueError := by
+  simp only [pyIndexOf, findIdxEq_live]
+  cases livePos a v c <;> rfl
+theorem pyIndexOf_live_of_some {a : Acc} {v : Int} {c : Char} {p : Nat} (h : livePos a v c = some p) :
+    pyIndexOf (.list ((a.live v).map fun j => .str [nucChar j])) (.str [c]) = .ok (.int (p : Int)) := by
+  rw [pyIndexOf_live, h]
+/-- what `livePos` says about the letter. -/
+theorem livePos_some {a : Acc} {v : Int} {c : Char} {p : Nat} (h : livePos a v c = some p) :
+    ∃ j, nucIdx c = some j ∧ j ∈ a.live v ∧ p = (a.live v).idxOf j ∧ p < (a.live v).length := by
+  unfold livePos at h
+  cases hc : nucIdx c with
+  | none => rw [hc] at h; cases h
+  | some j =>
+    rw [hc] at h
+    by_cases hm : (a.live v).contains j = true
+    · simp only [hm, if_true, Option.some.injEq] at h
+      have hmem : j ∈ a.live v := by simpa using hm
+      exact ⟨j, rfl, hmem, h.symm, h ▸ List.idxOf_lt_length_of_mem hmem⟩
+    · simp only [hm, Bool.false_eq_true, if_false] at h; cases h
+/-- the idiom `accessor[v][nucleotides.index(c)]`: follow the arc labelled `c`. -/
+theorem acc_index_nuc {a : Acc} (ha : a.WF) {v : Int} (h0 : 0 ≤ v) (hv : v < a.size) {c : Char} {j : Nat}
+    (hc : nucIdx c = some j) :
+    (bnd (pyIndex (accPV a) (.int v)) fun r => bnd (pyIndexOf (.str ['A', 'C', 'G', 'T']) (.str [c])) fun k =>
+        pyIndex r k) = .ok (.int (a.ent v ((nucIdx c).getD 0))) := by
+  rw [pyIndex_accPV_of_nonneg h0 hv, bnd_ok, pyIndexOf_ACGT_of_some hc, bnd_ok,
+    pyIndex_row_ent (by rw [ha.row_size h0 hv]; exact nucIdx_lt hc), hc]
+  rfl
+
+/-! ### comparisons of a natural with the literals of the generated code -/
+
+theorem eqb_nat_lit_one (n : Nat) : PV.eqb (.int n) (.int 1) = decide (n = 1) := by
+  rw [eqb_int, Bool.eq_iff_iff]; simp only [beq_iff_eq, decide_eq_true_eq]; omega
+theorem eqb_nat_lit_two (n : Nat) : PV.eqb (.int n) (.int 2) = decide (n = 2) := by
+  rw [eqb_int, Bool.eq_iff_iff]; simp only [beq_iff_eq, decide_eq_true_eq]; omega
+theorem eqb_nat_lit_three (n : Nat) : PV.eqb (.int n) (.int 3) = decide (n = 3) := by
+  rw [eqb_int, Bool.eq_iff_iff]; simp only [beq_iff_eq, decide_eq_true_eq]; omega
+theorem eqb_nat_lit_four (n : Nat) : PV.eqb (.int n) (.int 4) = decide (n = 4) := by
+  rw [eqb_int, Bool.eq_iff_iff]; simp only [beq_iff_eq, decide_eq_true_eq]; omega
+theorem eqb_nat_nat (n k : Nat) : PV.eqb (.int n) (.int k) = decide (n = k) := by
+  rw [eqb_int, Bool.eq_iff_iff]; simp only [beq_iff_eq, decide_eq_true_eq]; omega
+/-- `len(used_indices) > 1`. -/
+theorem pyGt_nat_one (n : Nat) : pyGt (.int n) (.int 1) = .ok (decide (1 < n)) := by
+  simpa using pyGt_nat n 1
+/-- `vt_length > 0` is `pyGt_nat_zero` of `PyLemmas`. -/
+theorem pyGt_nat_zero' (n : Nat) : pyGt (.int n) (.int 0) = .ok (decide (0 < n)) := pyGt_nat_zero n
+
+/-! ### `pyPow`, `% 4` -/
+
+theorem pyPow_int_nat (a : Int) (b : Nat) : pyPow (.int a) (.int b) = .ok (.int (a ^ b)) := by
+  have : ¬ ((b : Int) < 0) := by omega
+  simp [pyPow, this]
+/-- `a ** b` on naturals. -/
+theorem pyPow_nat (a b : Nat) : pyPow (.int a) (.int b) = .ok (.int ((a ^ b : Nat) : Int)) := by
+  rw [pyPow_int_nat]; push_cast; rfl
+/-- `len(nucleotides) ** m`. -/
+theorem pyPow_four_nat (b : Nat) : pyPow (.int 4) (.int b) = .ok (.int ((4 ^ b : Nat) : Int)) :=
+  pyPow_nat 4 b
+theorem pyPow_neg {a b : Int} (h : b < 0) : pyPow (.int a) (.int b) = .error .other := by
+  simp [pyPow, h]
+/-- `x % len(nucleotides)`. -/
+theorem pyMod_nat_four (a : Nat) : pyMod (.int a) (.int 4) = .ok (.int ((a % 4 : Nat) : Int)) :=
+  pyMod_nat (a := a) (b := 4) (by omega)
 
 end Dsw.Tie
